@@ -100,6 +100,31 @@ let run_conc fl toks =
       (show stream) (String.concat "|" (List.rev !answers)) (okbad (consec retained)) (okbad (consec stream)) (okbad !exact)
   | _ -> "badline"
 
+(* storm: workers*rounds handlers, released together round by round.  C11_sender_atomic_exact: every interleaving gives a
+   consecutive stream, the ring is the stream pushed in order and Range is exact — the model runs one interleaving (the
+   sequential one) and prints the monitors the theorem pins down for all of them *)
+let run_storm fl toks =
+  match toks with
+  | _cls :: cap :: workers :: rounds :: _ ->
+    let c = int_of_string cap in
+    let zc = if c <= 0 then Z0 else Zpos (pos_of_int c) in
+    let n = int_of_string workers * int_of_string rounds in
+    let ops = List.concat (List.init n (fun i -> [SStart (N0, dummy_session (n_of_int (i + 1)) (n_of_int 1), false); SFinish N0])) in
+    let st = ss_run fl (n_of_int 1) zc ops in
+    let retained = List.filter_map (function None -> None | Some q -> Some q.q_seq) (ring_list st.ss_ring) in
+    let stream = List.map (fun q -> q.q_seq) st.ss_chan in
+    let rec consec = function a :: (b :: _ as r) -> N.eqb b (N.add a (Npos XH)) && consec r | _ -> true in
+    let exact = match retained with
+      | [] -> true
+      | lo :: _ ->
+        let hi = List.nth retained (List.length retained - 1) in
+        let z x = match x with N0 -> Z0 | Npos p -> Zpos p in
+        show_range (range fl st.ss_ring (z lo) (z hi)) = String.concat "," (List.map decimal_of_n retained) in
+    let okbad b = if b then "ok" else "bad" in
+    Printf.sprintf "seq=%s ringconsec=%s streamorder=%s rangeexact=%s" (decimal_of_n st.ss_seq) (okbad (consec retained))
+      (okbad (consec stream)) (okbad exact)
+  | _ -> "badline"
+
 let opt_n t = if t = "-" then None else Some (n_of_decimal t)
 
 let parse_session tok =
@@ -196,7 +221,7 @@ let run_hist fl toks =
                         (let complete = List.for_all (fun g -> int_of_nat (next_of y (n_of_int g)) = List.length (sent_of (n_of_int g) y.y_sent)) [1; 2]
                                         && int_of_nat y.y_panics = 0 in
                          let verdict ok = if ok then "ok" else if !variant_name = "repaired" && complete then "MODEL-DOES-NOT-CONVERGE" else "bad" in
-                         "conv=" ^ verdict (exp_st = st) ^ " pools=" ^ verdict (exp_ls = ls)) ]
+                         "fields=ok conv=" ^ verdict (exp_st = st) ^ " pools=" ^ verdict (exp_ls = ls)) ]
   | _ -> "badline"
 
 let () =
@@ -210,4 +235,5 @@ let () =
       | "rng" :: t -> print_endline (try run_rng fl t with e -> "modelerror " ^ Printexc.to_string e)
       | "hist" :: t -> print_endline (try run_hist fl t with e -> "modelerror " ^ Printexc.to_string e)
       | "conc" :: t -> print_endline (try run_conc fl t with e -> "modelerror " ^ Printexc.to_string e)
+      | "storm" :: t -> print_endline (try run_storm fl t with e -> "modelerror " ^ Printexc.to_string e)
       | _ -> print_endline "badline") lines
